@@ -5,7 +5,8 @@
 
    Project (what the user edits): two packages, app (root) and lib.
      bver[p], pver[p]   version of the build / package script
-     src[p]             version of the imported source tree
+     src[p]             version of the source tree (0 base, 1 file modified, 2 file added in a
+                        sub-directory, 3 that file modified in place)
      V, usesV           value of an environment variable; whether app's build consumes it
      dep                whether app depends on lib
      pv                 value of a variable that lib provides to app
@@ -128,7 +129,7 @@ Edit ==
   /\ mode = "idle" /\ nedit < MaxEdit
   /\ \/ \E p \in Pkg : proj' = [proj EXCEPT !.bver[p] = 1 - @] /\ Hist([a |-> "Edit", knob |-> "bver", p |-> p])
      \/ \E p \in Pkg : proj' = [proj EXCEPT !.pver[p] = 1 - @] /\ Hist([a |-> "Edit", knob |-> "pver", p |-> p])
-     \/ \E p \in Pkg, v \in 0..2 : v # proj.src[p] /\ proj' = [proj EXCEPT !.src[p] = v]
+     \/ \E p \in Pkg, v \in 0..3 : v # proj.src[p] /\ proj' = [proj EXCEPT !.src[p] = v]
                                    /\ Hist([a |-> "Edit", knob |-> "src", p |-> p, v |-> v])
      \/ proj' = [proj EXCEPT !.V = 1 - @] /\ Hist([a |-> "Edit", knob |-> "V"])
      \/ proj' = [proj EXCEPT !.usesV = ~@] /\ Hist([a |-> "Edit", knob |-> "usesV"])
@@ -230,7 +231,7 @@ CoForge ==
 \* 1323: prune + copy of the import source / the checkout script regenerates its files
 CoRun ==
   /\ Running("co") /\ pc = "run"
-  /\ cont' = [cont EXCEPT ![S(CurP)] = CleanS(CurP)]
+  /\ cont' = [cont EXCEPT ![S(CurP)] = IF "ImportKeepsOld" \in Weak /\ ~Deterministic(CurP) /\ @ # EMPTY THEN @ ELSE CleanS(CurP)]
   /\ ranInQuiet' = (ranInQuiet \/ (quiet /\ Deterministic(CurP)))
   /\ pc' = "commit" /\ Flow /\ UNCHANGED ex /\ ST /\ Knobs /\ NoHist /\ UNCHANGED <<created, ninv, nkill, nfail, lastOk, quiet>>
 
@@ -273,7 +274,7 @@ BuStart ==
      /\ cont' = IF ex[d] THEN cont ELSE [cont EXCEPT ![d] = EMPTY]
      /\ IF ~ex[d] THEN pc' = "reset"
         ELSE IF dst[d] # IncVIdB(CurP)
-             THEN pc' = IF "NoPruneOnDigestChange" \in Weak THEN "reset"
+             THEN pc' = IF "NoPruneOnDigestChange" \in Weak \/ ("NoPruneWhenStateless" \in Weak /\ dst[d] = NONE) THEN "reset"
                         ELSE IF "PruneBeforeReset" \in Weak THEN "prune" ELSE "inval"
              ELSE pc' = "check"
   /\ Flow /\ ST /\ Knobs /\ Ctr /\ NoHist
